@@ -140,7 +140,7 @@ class AtomsEngine(Engine):
     name = 'session_atoms'
     max_ops = 50
     expected_probes = ['inplace_overwrite_other_dtype', 'alias_candidate_used', 'refused_raised', 'scribble_result',
-                       'scribble_safecopy', 'setitem_overlap', 'extend_new_props_both_sides', 'natypes_grew', 'readonly_reassign_refused', 'noncontiguous_input', 'atype_lt1_scalar_forms', 'default_constructed_object', 'types_renumbered_through_prop_atype', 'scaled_access_by_a_id',
+                       'scribble_safecopy', 'setitem_overlap', 'extend_new_props_both_sides', 'natypes_grew', 'readonly_reassign_refused', 'noncontiguous_input', 'atype_lt1_scalar_forms', 'default_constructed_object', 'types_renumbered_through_prop_atype', 'scaled_access_by_a_id', 'symbol_as_numpy_string', 'integer_typed_positions',
                        'negative_index', 'mask_index', 'scaled_write', 'prop_atype_single_new_key', 'df_checked',
                        'box_set_with_possible_sharers', 'box_alias_candidate_used']
     rule = ('Each run keeps a pool of up to 6 live Atoms/System objects (parent/child links recorded) and applies up to '
@@ -396,7 +396,8 @@ class AtomsEngine(Engine):
         m = pool[slot]
         k = ctx.wchoice([('symbols', 1), ('masses', 1), ('pbc', 0.7), ('scaled_get', 1.2), ('scaled_set', 1.5), ('atoms_extend', 2), ('box_set', 0.6)])
         if k == 'symbols':
-            return {'op': 'symbols', 'o': slot, 'value': r.choice(['Cu', [r.choice(SYMS + [None]) for _ in range(r.randint(0, 5))]])}
+            return {'op': 'symbols', 'o': slot, 'value': r.choice(['Cu', 'Cu', [r.choice(SYMS + [None]) for _ in range(r.randint(0, 5))]]),
+                    'form': r.choice(['plain', 'plain', 'numpy', 'tuple'])}
         if k == 'masses':
             nt = max(m.natypes(), len(m.symbols))
             return {'op': 'masses', 'o': slot, 'value': r.choice([round(r.uniform(1, 200), 3), [r.choice([None, round(r.uniform(1, 200), 3)]) for _ in range(r.randint(0, nt))]])}
@@ -441,6 +442,10 @@ class AtomsEngine(Engine):
             if r.random() < 0.5:
                 op['scale'] = True
                 op['spec']['pos'] = [[round(r.uniform(-0.2, 1.2), 4) for _ in range(3)] for _ in range(nv)]
+                if r.random() < 0.3:
+                    # box-relative lattice sites written as whole numbers: the operand's pos array is integer typed
+                    op['spec']['pos'] = [[r.randint(0, 2) for _ in range(3)] for _ in range(nv)]
+                    op['spec']['int_pos'] = True
         return op
 
     def _gen_fault(self, ctx, st, slot):
@@ -537,7 +542,9 @@ class AtomsEngine(Engine):
         for nm, vals in spec['props'].items():
             arrs[nm] = geom.with_layout(np.array(vals), lay)
         atype = geom.with_layout(np.array(spec['atype'], dtype=int), lay)
-        pos = geom.with_layout(np.array(spec['pos'], dtype=float), lay)
+        pos = geom.with_layout(np.array(spec['pos'], dtype=(int if spec.get('int_pos') else float)), lay)
+        if spec.get('int_pos'):
+            ctx.probe('integer_typed_positions')
         if lay != 'C' and not pos.flags['C_CONTIGUOUS']:
             ctx.probe('noncontiguous_input')
         a = ctx.must(clause, am.Atoms, atype=atype, pos=pos, safecopy=safecopy, klass='Atoms()', **arrs)
@@ -1154,7 +1161,19 @@ class AtomsEngine(Engine):
         if m.kind != 'system':
             return {'skip': 1}
         v = op['value']
-        ctx.must('C06.X', setattr, m.real, 'symbols', v if isinstance(v, str) else list(v), klass='symbols=')
+        form = op.get('form', 'plain')
+        if isinstance(v, str):
+            given = np.str_(v) if form == 'numpy' else v       # e.g. what np.unique(elements)[0] hands over
+            if form == 'numpy':
+                ctx.probe('symbol_as_numpy_string')
+        elif form == 'tuple':
+            given = tuple(v)
+        elif form == 'numpy' and v and all(x is not None for x in v):
+            given = np.array(v)
+            ctx.probe('symbol_as_numpy_string')
+        else:
+            given = list(v)
+        ctx.must('C06.X', setattr, m.real, 'symbols', given, klass='symbols=')
         m.symbols = [v] if isinstance(v, str) else list(v)
         ctx.ev('op', 'symbols', {'o': op['o'], 'value': v})
         return {'changed': True}
